@@ -15,7 +15,7 @@ RULE = (
     "struct without fields - are reachable) from plain tree descriptions.  (a) Bounded-exhaustive "
     "small scope, the union of four sub-scopes each enumerated completely: types (<= 2 structs x <= 2 "
     "fields named a/b, <= 1 enum, type names A/B), enums (<= 2 enums x <= 2 enumerators, names x/y, "
-    "values 0/1), bindings (structs A,B + <= 2 extra bindings: name A/B, protocol can/x, id absent/1/2, "
+    "values 0/1), bindings (structs A,B + <= 2 extra bindings: name A/B, protocol can/x, id absent/0/1, "
     "type A/B/undeclared Z), devices (<= 2 devices listing <= 2 of S/T, <= 2 declared services); the "
     "thorough tier widens every bound by one.  (b) Random larger trees (from the description "
     "generator) with none or exactly one injected violation of each rule at a random position, plus "
@@ -296,7 +296,7 @@ def scope_bindings(wide):
     opts = []
     for name in ("A", "B"):
         for proto in ("can", "x"):
-            for idv in (None, 1, 2):
+            for idv in (None, 0, 1):
                 for typ in ("A", "B", "Z"):
                     opts.append((name, proto, idv, typ))
     for nb in range(0, (3 if wide else 2) + 1):
@@ -402,6 +402,9 @@ def plugin_trees(r):
         return {"name": name, "protocol": proto, "type": typ, "fields": f, "signals": []}
 
     a, b = r.sample(range(0, 2048), 2)
+    if r.random() < 0.3:
+        a = r.choice([0, 2047])  # boundary frame ids (0 is falsy)
+        b = a + 1 if a == 0 else a - 1
     out.append((T([can("Pa", "Pa", a), can("Pb", "Pb", b)]), "can-distinct-ids"))
     out.append((T([can("Pa", "Pa", a), can("Pb", "Pb", a)]), "can-same-id-same-bus"))
     out.append((T([can("Pa", "Pa", a, "b1"), can("Pb", "Pb", a, "b2")]), "can-same-id-different-buses"))
